@@ -45,7 +45,7 @@ def run_demo():
     rc, o = sh(cmd)
     if "can't find" in o or "unresolved import" in o and "std" in o:
         pass
-    if rc != 0 and ("could not compile" in o and "feature" in o):
+    if rc != 0 and "could not compile" in o:
         cmd = "cargo test --workspace --offline --test %s" % name
         rc, o = sh(cmd)
     ran.append(cmd)
